@@ -4,8 +4,10 @@
    CutSuffix, Count, Cut, IndexRune, ContainsRune, IndexAny, ContainsAny,
    LastIndexAny against byte-exact models of the namesakes (StdAscii.v,
    StdAscii2.v).  IndexByte / LastIndexByte are characterised byte-exactly in
-   C10; the caseless class is decided by the direct
-   comparison with strings/bytes in the C20 run (see C20_partial note in
+   C10.  Caseless class: proved for Index, Contains, LastIndex, HasPrefix,
+   HasSuffix, TrimPrefix, TrimSuffix, CutPrefix, CutSuffix, Count, Cut
+   (Caseless.v); Compare and the character searches of that class are decided
+   by the direct comparison with strings/bytes in the C20 run (see C20_partial note in
    DESIGN.md); EqualFold holds on ALL byte strings by C02. *)
 From Strcase Require Import Base Utf8 Utf8Facts Spec SpecFacts SpecIndex SpecAffix Fold FoldFacts FoldTables FoldFacts121 StdSpec StdAscii.
 
@@ -61,6 +63,60 @@ Theorem C20_ascii_cut_suffix : forall s t, ascii s -> ascii t ->
   cut_suffix fold121 s t = (std_trim_suffix (lower s) (lower t), std_has_suffix (lower s) (lower t)).
 Proof. exact ascii_cut_suffix. Qed.
 Print Assumptions C20_ascii_last_index_any.
+
+(* ---- caseless class: well-formed UTF-8 none of whose code points is changed by case folding
+   (digits, punctuation, CJK, emoji, symbols ...): the functions are the byte-level namesakes on
+   the arguments themselves.  The core is alignment (Caseless.align): in well-formed UTF-8 a
+   byte-level occurrence of a well-formed non-empty needle starts and ends on code-point
+   boundaries and is an occurrence of its code points, and conversely. ---- *)
+From Strcase Require Import Caseless.
+Definition caseless121 := caseless fold121.
+
+Theorem C20_caseless_index : forall s t, wf s -> wf t -> caseless121 s -> caseless121 t ->
+  index fold121 s t = std_index s t.
+Proof. exact (caseless_index fold121). Qed.
+Print Assumptions C20_caseless_index.
+Theorem C20_caseless_contains : forall s t, wf s -> wf t -> caseless121 s -> caseless121 t ->
+  contains fold121 s t = std_contains s t.
+Proof. exact (caseless_contains fold121). Qed.
+Theorem C20_caseless_last_index : forall s t, wf s -> wf t -> caseless121 s -> caseless121 t ->
+  last_index fold121 s t = std_last_index s t.
+Proof. exact (caseless_last_index fold121). Qed.
+Theorem C20_caseless_has_prefix : forall s t, wf s -> wf t -> caseless121 s -> caseless121 t ->
+  has_prefix fold121 s t = std_has_prefix s t.
+Proof. exact (caseless_has_prefix fold121). Qed.
+Theorem C20_caseless_trim_prefix : forall s t, wf s -> wf t -> caseless121 s -> caseless121 t ->
+  trim_prefix fold121 s t = std_trim_prefix s t.
+Proof. exact (caseless_trim_prefix fold121). Qed.
+Theorem C20_caseless_cut_prefix : forall s t, wf s -> wf t -> caseless121 s -> caseless121 t ->
+  cut_prefix fold121 s t = (std_trim_prefix s t, std_has_prefix s t).
+Proof. exact (caseless_cut_prefix fold121). Qed.
+Theorem C20_caseless_has_suffix : forall s t, wf s -> wf t -> caseless121 s -> caseless121 t ->
+  has_suffix fold121 s t = std_has_suffix s t.
+Proof. exact (caseless_has_suffix fold121). Qed.
+Theorem C20_caseless_trim_suffix : forall s t, wf s -> wf t -> caseless121 s -> caseless121 t ->
+  trim_suffix fold121 s t = std_trim_suffix s t.
+Proof. exact (caseless_trim_suffix fold121). Qed.
+Theorem C20_caseless_cut_suffix : forall s t, wf s -> wf t -> caseless121 s -> caseless121 t ->
+  cut_suffix fold121 s t = (std_trim_suffix s t, std_has_suffix s t).
+Proof. exact (caseless_cut_suffix fold121). Qed.
+Theorem C20_caseless_count : forall s t, wf s -> wf t -> caseless121 s -> caseless121 t ->
+  count fold121 s t = std_count s t.
+Proof. exact (caseless_count fold121). Qed.
+Theorem C20_caseless_cut : forall s t, wf s -> wf t -> caseless121 s -> caseless121 t ->
+  cut fold121 s t = std_cut s t.
+Proof. exact (caseless_cut fold121). Qed.
+Print Assumptions C20_caseless_count.
+
+(* non-vacuity: "世1😀" and "1😀" are caseless *)
+Example C20_caseless_example :
+  caseless121 [228; 184; 150; 49; 240; 159; 152; 128] /\ caseless121 [49; 240; 159; 152; 128] /\
+  index fold121 [228; 184; 150; 49; 240; 159; 152; 128] [49; 240; 159; 152; 128] = 3.
+Proof.
+  split; [|split]; [| |vm_compute; reflexivity];
+    (split; [vm_compute; reflexivity|]; intros x Hx; vm_compute in Hx;
+     repeat (destruct Hx as [<-|Hx]; [vm_compute; reflexivity|]); destruct Hx).
+Qed.
 
 Theorem C20_equal_fold_all : forall s t, wf s -> wf t ->
   equal_fold fold121 s t = std_equal_fold R121 s t.
